@@ -27,7 +27,8 @@ RULE = (
     "Fault injection: for generated DagPrograms every function in the dependency cone of a drawn output, and for "
     "generated MapPrograms a drawn (function, call index), is made the failing invocation (the tracer raises one of "
     "ValueError('m'), KeyError('k'), RuntimeError(), ZeroDivisionError('z'), a module-level custom exception with two "
-    "args) under pipeline(...)/run/func (DAG) and map sequential / ScheduledExecutor with drawn orders / thread pool / "
+    "args) under pipeline(...)/run/func (DAG; the failing callable drawn as a plain function or as a callable object "
+    "with __name__ and a signature but no __qualname__, the pipeline drawn with debug=True/None/unset) and map sequential / ScheduledExecutor with drawn orders / thread pool / "
     "process pool / map_async (map). Oracle: the call raises the same class with equal args; __notes__ contain a note "
     "naming the failing function and, for every keyword of the failing invocation, 'name=repr(value)' with the value "
     "the tracer saw; no function that depends on the failing one is invoked (sequentially: nothing at all after the "
@@ -240,8 +241,20 @@ def _body_dag(data) -> Outcome:
             if fn_["name"] == fail_fn:
                 fn_["resvar"] = "res_"
         out.labels.append("failing-function-has-resources_variable")
+    feat = data.get("feat")  # absent in cases stored before these options existed
+    if feat is not None and feat % 3 == 0:
+        # the failing user callable is an object with __name__ and a signature but no __qualname__ (what a
+        # NestedPipeFunc wraps, what a callable instance is)
+        prog = copy.deepcopy(prog)
+        for fn_ in prog["funcs"]:
+            if fn_["name"] == fail_fn:
+                fn_["callable_object"] = True
+        out.labels.append("failing-callable-is-an-object")
+    # debug=True (pipeline-wide) only adds printing: the failure must surface exactly as without it
+    debug = False if feat is None else {0: True, 1: None}.get((feat // 3) % 4, False)
+    out.labels.append(f"debug:{debug}")
     try:
-        p = build_pipeline(prog, log, fail=fail)
+        p = build_pipeline(prog, log, fail=fail, **({} if debug is False else {"debug": debug}))
     except Exception:
         out.labels.append("n/a:build-refused")
         return out
@@ -260,15 +273,19 @@ def _body_dag(data) -> Outcome:
     kw_reprs = {pname: repr(v) for pname, v in zip(fn["params"], call_args)}
     dependants = {f for f in executed if fail_fn in _trans_deps(m, f)}
     out.nontrivial = executed.index(fail_fn) > 0 or bool(dependants)
+    import contextlib
+    import io
+
     try:
-        if style == "call":
-            r = with_watchdog(lambda: p(target, **kw))
-        elif style == "run":
-            r = with_watchdog(lambda: p.run(target, kwargs=dict(kw)))
-        elif style == "full_output":
-            r = with_watchdog(lambda: p.run(target, full_output=True, kwargs=dict(kw)))
-        else:
-            r = with_watchdog(lambda: p.func(target)(**kw))
+        with contextlib.redirect_stdout(io.StringIO()):  # debug printing is not part of the verdict
+            if style == "call":
+                r = with_watchdog(lambda: p(target, **kw))
+            elif style == "run":
+                r = with_watchdog(lambda: p.run(target, kwargs=dict(kw)))
+            elif style == "full_output":
+                r = with_watchdog(lambda: p.run(target, full_output=True, kwargs=dict(kw)))
+            else:
+                r = with_watchdog(lambda: p.func(target)(**kw))
     except _Timeout:
         out.fail(f"dag-{style}-hang", f"{target}")
         return out
@@ -631,6 +648,7 @@ def campaigns(tier):
         {
             "prog": dag_programs(max_funcs=6, min_funcs=2, consistent_ignored_defaults=True),
             "pick": st.integers(0, 2**16 - 1),
+            "feat": st.integers(0, 11),
             "exc": st.sampled_from(sorted(EXC)),
             "style": st.sampled_from(["call", "run", "full_output", "func"]),
         }
